@@ -222,7 +222,13 @@ def run(M, c):
         _judge(M, "date", P.Date(*F[:3]))
     elif k == "time":
         M.cls("time", F[3])
-        _judge(M, "time", P.Time(*F[3:]))
+        t1 = P.Time(*F[3:])
+        _judge(M, "time", t1)
+        # the durations Time.diff() hands out (AbsoluteDuration by default, signed Duration with abs=False), either order
+        t2 = P.Time((F[3] + 7) % 24, F[5], F[4], (F[6] * 7) % 10**6)
+        for d_, tag in ((t1.diff(t2), ":time-diff-absolute"), (t2.diff(t1), ":time-diff-absolute"), (t1.diff(t2, False), ":time-diff-signed"),
+                        (t2.diff(t1, False), ":time-diff-signed")):
+            _judge(M, "duration", d_, sig_extra=tag)
     elif k == "timetz":
         M.cls("timetz", c["off"] % 60 == 0, c["f"])
         tz = FT(c["off"]) if c["f"] else P.UTC
